@@ -37,11 +37,12 @@ Proof. exact optional_never_waits. Qed.
 Print Assumptions C06_optional.
 
 (* ComponentContext.get_resource as read from the source on this run: optional never waits; otherwise one lookup
-   and, if that finds nothing, a wait for a resource_added event carrying the requested NAME whose types CONTAIN
+   and, if that finds nothing for THE REQUESTED pair (a factory's own missing dependency is passed on), a wait for a resource_added event carrying the requested NAME whose types CONTAIN
    the requested type, then the lookup again -- all on the surrounding context *)
 Theorem C06_waiting_lookup_in_source :
   cc_delegates_to_surrounding_context = true /\ cc_optional_never_waits = true /\
-  cc_lookup_before_waiting = true /\ cc_wait_filters_by_name = true /\
+  cc_lookup_before_waiting = true /\ cc_waits_only_when_the_requested_resource_is_missing = true /\
+  cc_wait_filters_by_name = true /\
   cc_wait_filters_by_type_membership = true /\ cc_lookup_again_after_wake = true.
 Proof. exact component_context_source_shape. Qed.
 Print Assumptions C06_waiting_lookup_in_source.
